@@ -197,8 +197,9 @@ func ParseDecimal(lex string) *big.Rat {
 			neg = e[0] == '-'
 			e = e[1:]
 		}
-		if len(e) > 6 {
-			e = e[:6] // clamp; comparisons only need agreement
+		e = strings.TrimLeft(e, "0")
+		if len(e) > 5 {
+			e = "99999" // clamp: beyond any float64 either way; comparisons only need agreement
 		}
 		for _, d := range e {
 			exp = exp*10 + int(d-'0')
